@@ -2150,15 +2150,37 @@ class _Ops:
         if not direct and not params:
             expect = expect + (RuntimeError,)
         steps = int(op.get("steps", 2))
+        armed = None
+        if op.get("arm"):
+            # the predictor fails in a *later* iteration of the fitting loop (k-th invocation from now)
+            armed = next((e.obj.params for e in self.elems(x) if kind_of(e.obj) == "C" and is_module_net(e.obj.params)), None)
+            if armed is not None:
+                armed.arm(int(op["arm"]))
         st, r = self.guarded(lambda: t.fit(flow, steps=steps, lr=float(op.get("lr", 0.01)), epsilon=0.0), expect=expect)
+        if armed is not None and st != "faulted":
+            armed.net.raise_at = None  # not reached (fewer invocations than expected): disarm
         if st == "expected":
             return StepResult("expected_error", "fit-no-parameters")
         if st == "faulted":
             self.c["faults"]["callable_raises"] += 1
+            self.pred_replaces(x)
+            if not direct:
+                self.params_changed_in_place(params, "sgd")  # the optimiser steps completed before the failure stay
             self.set_buf(x, "unknown")
             self.related_unknown(x, include_self=True)
             self.after_fault = True
-            return StepResult("faulted", "fit-faulted")
+            sr = StepResult("faulted", "fit-faulted")
+            if "callable" in str(r) and not direct and not self.hookless(x) and all(family(e.obj) in ("dense", "spline") for e in self.elems(x)):
+                # fit() drops the buffered fields before every evaluation of the model, and the predictor is invoked by that
+                # evaluation: when it fails, nothing buffered may be older than the last completed optimiser step.  The lazy
+                # read right after the failure (caught by the caller, who goes on using the transform) must therefore show
+                # the parameters as they are now.
+                self.set_cleared(x, "fit")
+                self.note_change(x, "fit", fresh=True)
+                self.c["checks"]["disp_after_failed_fit"] += 1
+                sub = self.op_disp({"h": x.hid, "which": op.get("which", "disp")})
+                sr.violations.extend(sub.violations)
+            return sr
         if st == "raised":
             return StepResult("ok", "fit-raised", [self.viol("C09", "raises", x, "fit", self.exc_detail(r))])
         self.pred_replaces(x)
@@ -2806,8 +2828,14 @@ class _Gen:
         return {"op": "restart", "slot": rng.choice(sorted(self.ckpt)), "pseed": rng.subseed(), "out": self.alloc(1)}
 
     def gen_fit(self, rng):
-        x = self.pick(rng, lambda y: not self.has_none(y) and not generic_pred(y.obj) and
-                      (any(p.requires_grad for p in y.obj.parameters()) or cname(y.obj) == "DisplacementFieldTransform" or rng.chance(0.1)))
+        x = None
+        if self.sc["faults"]["callable_raises"] and rng.chance(0.5):
+            # models whose parameters come from a trainable predictor: the fitting loop invokes it once per iteration
+            x = self.pick(rng, lambda y: not self.has_none(y) and not generic_pred(y.obj) and all(family(e.obj) in ("dense", "spline") for e in self.elems(y))
+                          and any(kind_of(e.obj) == "C" and is_module_net(e.obj.params) for e in self.elems(y)))
+        if x is None:
+            x = self.pick(rng, lambda y: not self.has_none(y) and not generic_pred(y.obj) and
+                          (any(p.requires_grad for p in y.obj.parameters()) or cname(y.obj) == "DisplacementFieldTransform" or rng.chance(0.1)))
         if x is None:
             return None
         op = {"op": "fit", "h": x.hid, "fseed": rng.subseed(), "steps": rng.choice([1, 2, 2, 3]), "lr": rng.choice([0.005, 0.02]),
@@ -2815,6 +2843,9 @@ class _Gen:
         if not op["own"]:
             op["grid"] = gen.grid_desc(rng, self.D, 6, 14 if self.D == 2 else 8)
             op["grid"]["center"] = list(self.base_grid_desc["center"])
+        if self.sc["faults"]["callable_raises"] and rng.chance(0.5) and any(kind_of(e.obj) == "C" and is_module_net(e.obj.params) for e in self.elems(x)):
+            op["steps"] = rng.choice([3, 4])
+            op["arm"] = rng.choice([2, 3])
         return op
 
     def gen_hook(self, rng):
